@@ -683,16 +683,24 @@ func (c *Ctx) replyOwnHeader() {
 		return fmt.Sprintf("%T %s", v, v.Name())
 	}
 	n := 0
-	for _, fn := range c.RepoFuncs("service") {
-		hasMsg := false
+	hasMsgParam := func(fn *ssa.Function) bool {
 		for _, p := range fn.Params {
 			if isMsgParam(p) {
-				hasMsg = true
+				return true
 			}
 		}
-		if !hasMsg {
-			continue
+		return false
+	}
+	decide := func(fn *ssa.Function, at *ssa.Call, hdr ssa.Value) {
+		n++
+		st, d := report.Discharged, ""
+		if why := trace(hdr, map[ssa.Value]bool{}, 0); why != "" {
+			st, d = report.Violated, "the header encoded here is "+why+", not the header of the message this function was handed: the reply carries another message's phone / version / serial"
 		}
+		R.Add(rule, shortFn(fn)+" / "+c.constructOf(fn, at), c.P.RelPos(at.Pos()), st, d)
+	}
+	svcFns := c.RepoFuncs("service")
+	for _, fn := range svcFns {
 		for _, b := range fn.Blocks {
 			for _, ins := range b.Instrs {
 				call, isC := ins.(*ssa.Call)
@@ -703,12 +711,33 @@ func (c *Ctx) replyOwnHeader() {
 				if sc == nil || sc.Name() != "Encode" || !strings.Contains(sc.String(), "jt808.Header") || len(call.Call.Args) == 0 {
 					continue
 				}
-				n++
-				st, d := report.Discharged, ""
-				if why := trace(call.Call.Args[0], map[ssa.Value]bool{}, 0); why != "" {
-					st, d = report.Violated, "the header encoded here is "+why+", not the header of the message this function was handed: the reply carries another message's phone / version / serial"
+				if hasMsgParam(fn) {
+					decide(fn, call, call.Call.Args[0])
+					continue
 				}
-				R.Add(rule, shortFn(fn)+" / "+c.constructOf(fn, call), c.P.RelPos(call.Pos()), st, d)
+				// a framing helper that is handed the header: the obligation moves to the callers that were handed a message
+				hp, isP := call.Call.Args[0].(*ssa.Parameter)
+				if !isP {
+					continue
+				}
+				pi := -1
+				for k, p := range fn.Params {
+					if p == hp {
+						pi = k
+					}
+				}
+				for _, g := range svcFns {
+					if !hasMsgParam(g) {
+						continue
+					}
+					for _, gb := range g.Blocks {
+						for _, gi := range gb.Instrs {
+							if gc, isGC := gi.(*ssa.Call); isGC && gc.Call.StaticCallee() == fn && pi >= 0 && pi < len(gc.Call.Args) {
+								decide(g, gc, gc.Call.Args[pi])
+							}
+						}
+					}
+				}
 			}
 		}
 	}
